@@ -27,7 +27,9 @@ ASSUME \A k \in 1..Len(Rhos) : Injective(Rhos[k].atoms) /\ Injective(Rhos[k].con
                                 /\ Injective(Rhos[k].preds) /\ Injective(Rhos[k].vars)
 
 Pool(arg) == <<<<"A", 4, 0>>, <<"O", "Negation", <<arg.conc>>>>, <<"O", "Negation", <<<<"A", 0, 0>>>>>>,
-               <<"P", <<0, 0, 1>>, <<<<"c", 1, 0>>>>>>>>
+               <<"P", <<0, 0, 1>>, <<<<"c", 1, 0>>>>>>,
+               <<"O", "Necessity", <<<<"O", "Necessity", <<<<"A", 3, 0>>>>>>>>>>,
+               <<"O", "Possibility", <<<<"A", 3, 0>>>>>>>>
 
 Family(b) ==
   LET arg == b.arg IN
